@@ -26,7 +26,7 @@ var c07Unary = map[string]func(*mlrval.Mlrval) *mlrval.Mlrval{
 	"~":        bifs.BIF_bitwise_not,
 	"bitcount": bifs.BIF_bitcount,
 	"abs":      bifs.BIF_abs,
-	"ceiling":  bifs.BIF_ceil,
+	"ceil":  bifs.BIF_ceil,
 	"floor":    bifs.BIF_floor,
 	"round":    bifs.BIF_round,
 	"sgn":      bifs.BIF_sgn,
